@@ -19,11 +19,13 @@ def ciLiteralMatch (lower original : Str) : Bool :=
   lower == original ||
     (lower.length == original.length && (List.zip lower original).all fun p => Spec.chrMatches true p.1 p.2)
 
+/-- one test case through `convert_for_case_insensitive_matching` -/
+def lowerOne (env : Env) (it : Str) : Str :=
+  let l := env.lowerOf it
+  if l.length = it.length && ciLiteralMatch l it then l else it
+
 /-- `convert_for_case_insensitive_matching` -/
-def lowerCases (env : Env) (ws : List Str) : List Str :=
-  ws.map fun it =>
-    let l := env.lowerOf it
-    if l.length = it.length && ciLiteralMatch l it then l else it
+def lowerCases (env : Env) (ws : List Str) : List Str := ws.map (lowerOne env)
 
 /-- `RegExp::grapheme_clusters` -/
 def graphemeClusters (cfg : Config) (env : Env) (ws : List Str) : List Cluster :=
